@@ -3,17 +3,22 @@ C08 — responses are checked against the entry chosen for their status code.
 Property theorems only (model and spec: KinModel/Response.lean; helper lemmas: KinModel/Lemmas/C08.lean).
 
 Full-strength statement (the goal shape):
-    ∀ canon o i, (validateResponse canon o i).err = none ↔ Accept canon o i
+    ∀ canon o i, (validateResponse canon reg o i).err = none ↔ Accept canon reg o i
 It is proved below as `accept_iff_partial` outside three decidable exclusion classes in which the code
 really deviates from the property text (each with a kernel-checked witness, replayed on the Go code):
   HdrDecodedNil     a present header whose decoding gives no value is validated as `null`
-  HdrNotAsResponse  headers are visited without VisitAsResponse
+  HdrArrayNoItems   a present header whose schema is an array without `items` makes the decoder dereference nil
   EmptyMapStrict    empty responses map under IncludeResponseStatus
-A fourth class (WriteOnlyNull, finding F-C08-4: a write-only property carrying `null` in the body was not
-reported) was repaired in the repository (commit e80060c); its exclusion is gone, `visit_asrep_iff` holds at
-full strength, and the former witness is kept as the regression theorems `writeOnly_null_rejected*`.
+Two former classes were repaired in the repository; their exclusions are gone and the former witnesses are
+regression theorems (model = spec on them, inputs kept in corpus/C08):
+  WriteOnlyNull     (F-C08-4, commit e80060c) a write-only property carrying `null` in the body was not reported;
+                    `visit_asrep_iff` holds at full strength; `writeOnly_null_rejected*`
+  HdrNotAsResponse  (F-C08-2, commit 35101a0) headers were visited without VisitAsResponse;
+                    `header_writeOnly_rejected`, `header_required_writeOnly_absent_accepted`
 -/
 import KinModel.Lemmas.C08
+import KinModel.ResponseReg
+import KinModel.Gen.RespConsts
 namespace KinModel.Response
 
 /-! ### Selection of the response entry -/
@@ -69,7 +74,8 @@ required, read-only ones unconstrained. For every schema and value of the fragme
 theorem visit_asrep_iff (w : Bool) (v : J) (s : Sch) : visit ⟨true, w⟩ v s = true ↔ SatRep w v s := by
   rw [visit_asrep_eq_satRepB w v s]; exact satRepB_iff w v s
 
-/-- A value that reaches no write-only declaration is judged the same with and without VisitAsResponse. -/
+/-- A value that reaches no write-only declaration is judged the same with and without VisitAsResponse
+(what made the repair of F-C08-2 invisible for headers of primitive type). -/
 theorem visit_plain_eq_asrep_untouched (w : Bool) (v : J) (s : Sch) (h : woTouched v s = false) :
     visit ⟨false, w⟩ v s = visit ⟨true, w⟩ v s := visit_plain_eq_asrep w v s h
 
@@ -93,33 +99,226 @@ theorem writeOnly_null_rejected :
     satRepB false (.obj (.cons "pw" .null .nil)) (pwSchema true) = false ∧
     visit ⟨true, true⟩ (.obj (.cons "pw" .null .nil)) (pwSchema true) = true := by decide
 
+/-! ### Decoding of a response header (decodeValue with the header decoder, simple style) -/
+
+/-- A header schema without `type` never yields a value (the origin of finding F-C08-1). -/
+theorem decodeHeader_untyped (s : Sch) (ex : Bool) (raw : String) (c : Dec) (h : s.core.ty = .any) :
+    decodeHeader s ex raw c = .nil := by
+  simp [decodeHeader, h]
+
+/-- A header of primitive type yields no value exactly when its text is empty. -/
+theorem decodeHeader_prim_nil_iff (s : Sch) (ex : Bool) (raw : String) (c : Dec)
+    (h : s.core.ty = .integer ∨ s.core.ty = .boolean ∨ s.core.ty = .string) :
+    decodeHeader s ex raw c = .nil ↔ raw = "" := by
+  unfold decodeHeader parsePrim
+  rcases h with h | h | h <;> simp only [h] <;> by_cases hr : raw = "" <;> simp [hr] <;> split <;> simp
+
+/-- A non-empty header of type string is its text. -/
+theorem decodeHeader_string (s : Sch) (ex : Bool) (raw : String) (c : Dec) (h : s.core.ty = .string) (hr : raw ≠ "") :
+    decodeHeader s ex raw c = .val (.str raw) := by
+  simp [decodeHeader, parsePrim, h, hr]
+
+/-- The decoded value of a typed header has the declared type. -/
+theorem decodeHeader_typed (s : Sch) (ex : Bool) (raw : String) (c : Dec) (v : J) (h : decodeHeader s ex raw c = .val v) :
+    (s.core.ty = .integer → ∃ n, v = .num n) ∧ (s.core.ty = .boolean → ∃ b, v = .bool b) ∧
+    (s.core.ty = .string → v = .str raw) ∧ s.core.ty ≠ .any := by
+  unfold decodeHeader parsePrim at h
+  refine ⟨?_, ?_, ?_, ?_⟩
+  · intro ht
+    simp only [ht] at h
+    by_cases hr : raw = ""
+    · simp [hr] at h
+    · simp only [hr, if_false] at h
+      cases hp : parseInt64 raw.toList with
+      | none => simp [hp] at h
+      | some n => simp [hp] at h; exact ⟨n, h.symm⟩
+  · intro ht
+    simp only [ht] at h
+    by_cases hr : raw = ""
+    · simp [hr] at h
+    · simp only [hr, if_false] at h
+      cases hp : parseBoolWord raw with
+      | none => simp [hp] at h
+      | some b => simp [hp] at h; exact ⟨b, h.symm⟩
+  · intro ht
+    simp only [ht] at h
+    by_cases hr : raw = ""
+    · simp [hr] at h
+    · simp [hr] at h; exact h.symm
+  · intro ht
+    simp [ht] at h
+
+/-- On a document that passes validation (array schemas carry `items`) the header decoder dereferences no nil. -/
+theorem decodeHeader_no_panic (s : Sch) (ex : Bool) (raw : String) (c : Dec)
+    (hi : s.core.ty = .array → s.items ≠ .none) (hc : c ≠ .panic) : decodeHeader s ex raw c ≠ .panic := by
+  unfold decodeHeader
+  cases ht : s.core.ty with
+  | any => simp
+  | object => simpa using decodeObject_ne_panic s ex raw c hc
+  | array =>
+    cases hit : s.items with
+    | none => exact absurd hit (hi ht)
+    | some it =>
+      have := parseArr_some_ne_panic it (splitComma raw)
+      simp only
+      split
+      · simp
+      · assumption
+  | integer => simpa using parsePrim_ne_panic _ _
+  | boolean => simpa using parsePrim_ne_panic _ _
+  | string => simpa using parsePrim_ne_panic _ _
+
+/-- **Array headers**: when every comma-separated item parses as a primitive of the items type, the value is the
+array of the parsed items. -/
+theorem decodeHeader_array_vals (s it : Sch) (ex : Bool) (raw : String) (c : Dec) (x : J) (xs : List J)
+    (ht : s.core.ty = .array) (hit : s.items = .some it) (h : ItemsParse it.core.ty (splitComma raw) (x :: xs)) :
+    decodeHeader s ex raw c = .val (.arr (JL.ofList (x :: xs))) := by
+  unfold decodeHeader
+  simp only [ht, hit, parseArr_vals it _ _ h, JL.ofList]
+
+/-- **Array headers**: the first item that does not parse to a value decides — an empty or untyped item makes the
+whole header "no value", an unparsable one a decoding error. -/
+theorem decodeHeader_array_first_bad (s it : Sch) (ex : Bool) (raw : String) (c : Dec) (pre : List String) (xs : List J)
+    (v : String) (post : List String) (b : Dec)
+    (ht : s.core.ty = .array) (hit : s.items = .some it) (hsplit : splitComma raw = pre ++ v :: post)
+    (hpre : ItemsParse it.core.ty pre xs) (hv : parsePrim it.core.ty v = b) (hb : ∀ x, b ≠ .val x) :
+    decodeHeader s ex raw c = b := by
+  unfold decodeHeader
+  simp only [ht, hit, hsplit, parseArr_first_bad it pre xs v post b hpre hv hb]
+  cases b with
+  | val x => exact absurd rfl (hb x)
+  | err => rfl
+  | nil => rfl
+  | panic => rfl
+
+/-- **Object headers**: a text that is not a list of name/value pairs (an odd number of comma-separated pieces, or,
+exploded, a piece that is not `name=value`) is a decoding error. -/
+theorem decodeObject_malformed (s : Sch) (ex : Bool) (raw : String) (c : Dec)
+    (h : propsFromString ex raw = none) : decodeObject s ex raw c = .err := by
+  simp [decodeObject, h]
+
+/-- Not exploded, the pieces alternate between names and values: malformed exactly when their number is odd
+(in particular for the empty text, which is one empty piece). -/
+theorem propsFromString_plain_none_iff (raw : String) :
+    propsFromString false raw = none ↔ (splitComma raw).length % 2 = 1 := by
+  simp [propsFromString, pairUp_none_iff_odd]
+
+/-- Of a repeated name the last value counts (the pairs are stored into a Go map). -/
+theorem last_duplicate_wins (k v : String) (ps : List (String × String)) : lastVal k (ps ++ [(k, v)]) = some v :=
+  lastVal_append_same k v ps
+
+/-- Without an additionalProperties schema the decoded object has entries for declared properties only: names
+outside the schema are dropped before validation (so `additionalProperties: false` never fires on a header). -/
+theorem decodeObject_undeclared_dropped (s : Sch) (ex : Bool) (raw : String) (c : Dec) (pairs : List (String × String))
+    (kvs : KVs) (hp : propsFromString ex raw = some pairs) (hc : emptyNameCorner s pairs = false) (ha : s.addl = .none)
+    (h : decodeObject s ex raw c = .val (.obj kvs)) (k : String) (hk : (kvs.get k).isSome = true) :
+    (s.props.lookup k).isSome = true := by
+  unfold decodeObject at h
+  simp only [hp, hc, Bool.false_eq_true, if_false] at h
+  cases hb : buildDeclared pairs s.props [] with
+  | none => simp [hb] at h
+  | some d =>
+    simp only [hb, ha, Dec.val.injEq, J.obj.injEq] at h
+    subst h
+    exact buildDeclared_keys pairs s.props [] d hb k hk
+
+/-- An object-valued header always decodes to an object or to an error, never to "no value": finding F-C08-1
+(a present header validated as `null`) does not concern object headers. -/
+theorem decodeHeader_object_ne_nil (s : Sch) (ex : Bool) (raw : String) (c : Dec) (h : s.core.ty = .object)
+    (hc : c ≠ .nil) : decodeHeader s ex raw c ≠ .nil := by
+  simpa [decodeHeader, h] using decodeObject_ne_nil s ex raw c hc
+
+def intHdrSchema : Sch := .mk { ty := .integer } .nil .none .none
+def arrHdrSchema (it : OSch) : Sch := .mk { ty := .array } .nil .none it
+
+def Dec.isNum (n : Int) : Dec → Bool | .val (.num m) => m == n | _ => false
+def Dec.isErr : Dec → Bool | .err => true | _ => false
+def Dec.isNil : Dec → Bool | .nil => true | _ => false
+def Dec.isPanic : Dec → Bool | .panic => true | _ => false
+def JL.nums : JL → List (Option Int)
+  | .nil => []
+  | .cons (.num n) r => some n :: JL.nums r
+  | .cons _ r => none :: JL.nums r
+def Dec.isNums (ns : List Int) : Dec → Bool | .val (.arr xs) => xs.nums == ns.map some | _ => false
+
+/-- strconv.ParseInt base 10 / 64 bit and strconv.ParseBool on the texts the differential run also replays -/
+example : ([("5", 5), ("+5", 5), ("-0", 0), ("007", 7), ("-3", -3), ("9223372036854775807", 9223372036854775807),
+    ("-9223372036854775808", -9223372036854775808)].all
+    (fun rn => (decodeHeader intHdrSchema false rn.1 .err).isNum rn.2)) = true := by decide
+example : (["1_0", "0x10", " 5", "5 ", "-", "+", "1e3", "9223372036854775808", "-9223372036854775809"].all
+    (fun r => (decodeHeader intHdrSchema false r .err).isErr)) = true := by decide
+example : (["1", "t", "T", "TRUE", "true", "True"].map parseBoolWord) = List.replicate 6 (some true) ∧
+    (["0", "f", "F", "FALSE", "false", "False"].map parseBoolWord) = List.replicate 6 (some false) ∧
+    (["tRue", "yes", " true", "01"].map parseBoolWord) = List.replicate 4 none := by decide
+example : (decodeHeader (arrHdrSchema (.some intHdrSchema)) false "1,2" .err).isNums [1, 2] = true ∧
+    (decodeHeader (arrHdrSchema (.some intHdrSchema)) false "1,,2" .err).isNil = true ∧
+    (decodeHeader (arrHdrSchema (.some intHdrSchema)) false "x," .err).isErr = true ∧
+    (decodeHeader (arrHdrSchema (.some intHdrSchema)) false ",x" .err).isNil = true ∧
+    (decodeHeader (arrHdrSchema (.some intHdrSchema)) false "" .err).isNil = true ∧
+    (decodeHeader (arrHdrSchema (.some (.mk {} .nil .none .none))) false "1,2" .err).isNil = true ∧
+    (decodeHeader (arrHdrSchema .none) false "1,2" .err).isPanic = true ∧
+    (decodeHeader (arrHdrSchema .none) false ",1" .err).isNil = true := by decide
+
+def Dec.objIs (want : List (String × J)) : Dec → Bool
+  | .val (.obj kvs) => want.all (fun kw => match kvs.get kw.1, kw.2 with
+      | some (.str a), .str b => a == b | some (.num a), .num b => a == b | some (.bool a), .bool b => a == b
+      | _, _ => false) && KVs.len kvs == want.length
+  | _ => false
+where KVs.len : KVs → Nat | .nil => 0 | .cons _ _ r => KVs.len r + 1
+
+def objHdrSchema : Sch :=
+  .mk { ty := .object }
+    (.cons "m" (.mk { ty := .integer } .nil .none .none) (.cons "n" (.mk { ty := .string } .nil .none .none)
+      (.cons "u" (.mk {} .nil .none .none) (.cons "o" (.mk { ty := .object } .nil .none .none)
+        (.cons "a" (.mk { ty := .array } .nil .none .none) .nil))))) .none .none
+def objAddlSchema : Sch :=
+  .mk { ty := .object } (.cons "m" (.mk { ty := .integer } .nil .none .none) .nil)
+    (.some (.mk { ty := .integer } .nil .none .none)) .none
+
+/-- DecodeObject on the texts the differential run also replays -/
+example : (decodeHeader objHdrSchema false "m,4,n,x" .err).objIs [("m", .num 4), ("n", .str "x")] = true ∧
+    (decodeHeader objHdrSchema false "n,x,n,y" .err).objIs [("n", .str "y")] = true ∧
+    (decodeHeader objHdrSchema false "q,1" .err).objIs [] = true ∧
+    (decodeHeader objHdrSchema false "u,1,n," .err).objIs [] = true ∧
+    (decodeHeader objHdrSchema false "o,1" .err).objIs [("o", .str "1")] = true ∧
+    (decodeHeader objHdrSchema false "a,1" .err).isErr = true ∧
+    (decodeHeader objHdrSchema false "m,zz" .err).isErr = true ∧
+    (decodeHeader objHdrSchema false "m" .err).isErr = true ∧
+    (decodeHeader objHdrSchema false "" .err).isErr = true ∧
+    (decodeHeader objHdrSchema false "," .err).objIs [] = true ∧
+    (decodeHeader objHdrSchema true "m=4,n=x" .err).objIs [("m", .num 4), ("n", .str "x")] = true ∧
+    (decodeHeader objHdrSchema true "m=4=5" .err).isErr = true ∧
+    (decodeHeader objAddlSchema false "m,4,q,7" .err).objIs [("m", .num 4), ("q", .num 7)] = true ∧
+    (decodeHeader objAddlSchema false "q,x" .err).isErr = true ∧
+    (decodeHeader objAddlSchema false "," .err).isErr = true := by decide
+
 /-! ### ValidateResponse -/
 
 /-- HEAD requests are not checked. -/
-theorem head_not_checked (canon : String → String) (o : Opts) (i : Input) (h : i.method = "HEAD") :
-    validateResponse canon o i = ⟨none, some i.body⟩ := by
+theorem head_not_checked (canon : String → String) (reg : List (String × String)) (o : Opts) (i : Input) (h : i.method = "HEAD") :
+    validateResponse canon reg o i = ⟨none, some i.body⟩ := by
   simp [validateResponse, h]
 
 /-- 301, 304, 307 and 308 responses are not checked. -/
-theorem redirects_not_checked (canon : String → String) (o : Opts) (i : Input)
+theorem redirects_not_checked (canon : String → String) (reg : List (String × String)) (o : Opts) (i : Input)
     (h : i.status = 301 ∨ i.status = 304 ∨ i.status = 307 ∨ i.status = 308) :
-    validateResponse canon o i = ⟨none, some i.body⟩ := by
+    validateResponse canon reg o i = ⟨none, some i.body⟩ := by
   have := (skipStatus_iff i.status).mpr h
   unfold validateResponse
   by_cases hm : i.method = "HEAD" <;> simp [hm, this]
 
 /-- A status without definition passes unless strict status checking is requested. -/
-theorem undefined_status (canon : String → String) (o : Opts) (i : Input)
+theorem undefined_status (canon : String → String) (reg : List (String × String)) (o : Opts) (i : Input)
     (hm : i.method ≠ "HEAD") (hs : skipStatus i.status = false) (he : i.responses ≠ [])
     (hn : selected i.responses i.status = none) :
-    (validateResponse canon o i).err = if o.strict then some .statusNotSupported else none := by
+    (validateResponse canon reg o i).err = if o.strict then some .statusNotSupported else none := by
   unfold validateResponse
   have : i.responses.isEmpty = false := by cases h : i.responses <;> simp_all
   rw [firstSome_statusKeys, hn]
   cases o.strict <;> simp [hm, hs, this]
 
-theorem acceptB_iff (canon : String → String) (o : Opts) (i : Input) :
-    acceptB canon o i = true ↔ Accept canon o i := by
+theorem acceptB_iff (canon : String → String) (reg : List (String × String)) (o : Opts) (i : Input) :
+    acceptB canon reg o i = true ↔ Accept canon reg o i := by
   unfold acceptB Accept
   have hsk : skippedB i = true ↔ Skipped i := by simp [skippedB, Skipped, or_assoc]
   simp only [Bool.or_eq_true, hsk]
@@ -138,16 +337,16 @@ theorem acceptB_iff (canon : String → String) (o : Opts) (i : Input) :
         · exact Or.inr (h x hx hn)
     · cases o.excludeBody <;> simp
 
-/-- **C08 main theorem.** Full strength: `(validateResponse canon o i).err = none ↔ Accept canon o i` for every
+/-- **C08 main theorem.** Full strength: `(validateResponse canon reg o i).err = none ↔ Accept canon reg o i` for every
 response map, status, header set, content type, body, decoding outcome and option set. Proved outside the three
 exclusion classes (each has a witness below): the response passes exactly when it is skipped (HEAD, 301/304/307/308),
 or no entry is selected and strictness is off, or — against the entry selected by exact code, class pattern,
 default — every declared header other than Content-Type is present-and-valid or absent-and-optional, and
 (unless the body is excluded) the content map is empty or the media type selected for the Content-Type has no
 schema or the decoded body satisfies the response-side reading of its schema. -/
-theorem accept_iff_partial (canon : String → String) (o : Opts) (i : Input)
+theorem accept_iff_partial (canon : String → String) (reg : List (String × String)) (o : Opts) (i : Input)
     (hx : Excluded canon o i = false) :
-    (validateResponse canon o i).err = none ↔ Accept canon o i := by
+    (validateResponse canon reg o i).err = none ↔ Accept canon reg o i := by
   simp only [Excluded, Bool.or_eq_false_iff] at hx
   obtain ⟨⟨hx1, hx2⟩, hx3⟩ := hx
   by_cases hm : i.method = "HEAD"
@@ -175,18 +374,18 @@ theorem accept_iff_partial (canon : String → String) (o : Opts) (i : Input)
       | false =>
         cases hsel : selected i.responses i.status with
         | none =>
-          have := undefined_status canon o i hm hs (by intro h; simp [h] at he) hsel
+          have := undefined_status canon reg o i hm hs (by intro h; simp [h] at he) hsel
           rw [this]; cases o.strict <;> simp
         | some r =>
-          rw [validateResponse_selected canon o i r hm hs he hsel]
+          rw [validateResponse_selected canon reg o i r hm hs he hsel]
           have hex : ∀ h, h ∈ r.headers → h.name ≠ "Content-Type" →
-              hdrDecodedNil canon i.hdrs h = false ∧ hdrWriteOnly canon i.hdrs h = false := by
+              hdrDecodedNil canon i.hdrs h = false ∧ hdrArrayNoItems canon i.hdrs h = false := by
             intro h hmem hn
             constructor
             · simp only [HdrDecodedNil, anyHdr, hsel, List.any_eq_false] at hx1
               have := hx1 h hmem
               simpa [hn] using this
-            · simp only [HdrNotAsResponse, anyHdr, hsel, List.any_eq_false] at hx2
+            · simp only [HdrArrayNoItems, anyHdr, hsel, List.any_eq_false] at hx2
               have := hx2 h hmem
               simpa [hn] using this
           have hh : firstErr (checkHeader canon o.woOff i.hdrs) (checkedHeaders r) = none ↔
@@ -210,24 +409,24 @@ theorem accept_iff_partial (canon : String → String) (o : Opts) (i : Input)
             · intro h; exact absurd h.1 hne
           | none =>
             have hok := hh.mp hf
-            show (checkBody o i r).err = none ↔ _
+            show (checkBody reg o i r).err = none ↔ _
             cases heb : o.excludeBody with
             | true =>
-              have hc : (checkBody o i r).err = none := by simp [checkBody, heb]
+              have hc : (checkBody reg o i r).err = none := by simp [checkBody, heb]
               constructor
               · intro _; exact ⟨hok, fun h => by simp at h⟩
               · intro _; exact hc
             | false =>
-              have hb := checkBody_iff o i r heb
+              have hb := checkBody_iff reg o i r heb
               constructor
               · intro h; exact ⟨hok, fun _ => hb.mp h⟩
               · intro h; exact hb.mpr (h.2 rfl)
 
 /-- **The body stays readable.** Whatever the verdict, when the body reader does not fail, what can be read from
 `input.Body` afterwards is what could be read before (the bytes are re-installed with SetBodyBytes). -/
-theorem body_readable_after (canon : String → String) (o : Opts) (i : Input) (h : i.readFails = false) :
-    (validateResponse canon o i).bodyAfter = some i.body := by
-  have hb : ∀ r, (checkBody o i r).bodyAfter = some i.body := by
+theorem body_readable_after (canon : String → String) (reg : List (String × String)) (o : Opts) (i : Input) (h : i.readFails = false) :
+    (validateResponse canon reg o i).bodyAfter = some i.body := by
+  have hb : ∀ r, (checkBody reg o i r).bodyAfter = some i.body := by
     intro r
     unfold checkBody
     simp only [h, Bool.false_eq_true, if_false]
@@ -238,14 +437,14 @@ theorem body_readable_after (canon : String → String) (o : Opts) (i : Input) (
   all_goals first | rfl | exact hb _
 
 /-- MultiError changes the report only, never the verdict nor the body. -/
-theorem multiError_irrelevant (canon : String → String) (o : Opts) (i : Input) (m : Bool) :
-    validateResponse canon { o with multi := m } i = validateResponse canon o i := rfl
+theorem multiError_irrelevant (canon : String → String) (reg : List (String × String)) (o : Opts) (i : Input) (m : Bool) :
+    validateResponse canon reg { o with multi := m } i = validateResponse canon reg o i := rfl
 
 /-- ExcludeResponseBody removes exactly the body check: the headers decide. -/
-theorem excludeBody_headers_decide (canon : String → String) (o : Opts) (i : Input) (r : Resp)
+theorem excludeBody_headers_decide (canon : String → String) (reg : List (String × String)) (o : Opts) (i : Input) (r : Resp)
     (hb : o.excludeBody = true) (hm : i.method ≠ "HEAD") (hs : skipStatus i.status = false)
     (he : i.responses ≠ []) (hsel : selected i.responses i.status = some r) :
-    (validateResponse canon o i).err = firstErr (checkHeader canon o.woOff i.hdrs) (checkedHeaders r) := by
+    (validateResponse canon reg o i).err = firstErr (checkHeader canon o.woOff i.hdrs) (checkedHeaders r) := by
   unfold validateResponse
   have : i.responses.isEmpty = false := by cases h : i.responses <;> simp_all
   rw [firstSome_statusKeys, hsel]
@@ -269,6 +468,28 @@ theorem header_error_names_declared (canon : String → String) (w : Bool) (hdrs
   obtain ⟨h1, h2⟩ := (mem_checkedHeaders r x).mp hx
   exact ⟨x, h1, h2, hc⟩
 
+/-- **Order of the header loop.** The header error reported is the one of the failing declared header with the
+least name (`sort.Strings`): every declared header that fails has a name at least as large. -/
+theorem header_error_is_least_failing (canon : String → String) (w : Bool) (hdrs : List (String × String))
+    (r : Resp) (e : Err) (h : firstErr (checkHeader canon w hdrs) (checkedHeaders r) = some e) :
+    ∃ x, x ∈ r.headers ∧ x.name ≠ "Content-Type" ∧ checkHeader canon w hdrs x = some e ∧
+      ∀ y, y ∈ r.headers → y.name ≠ "Content-Type" → checkHeader canon w hdrs y ≠ none → x.name ≤ y.name := by
+  obtain ⟨pre, x, post, hl, hp, hx⟩ := firstErr_some_split _ _ _ h
+  have hxm : x ∈ checkedHeaders r := by rw [hl]; simp
+  obtain ⟨h1, h2⟩ := (mem_checkedHeaders r x).mp hxm
+  refine ⟨x, h1, h2, hx, ?_⟩
+  intro y hy hyn hye
+  have hym : y ∈ checkedHeaders r := (mem_checkedHeaders r y).mpr ⟨hy, hyn⟩
+  have hs : (pre ++ x :: post).Pairwise (fun a b => a.name ≤ b.name) := by
+    rw [← hl]; exact sortHdrs_sorted _
+  rw [hl] at hym
+  rcases List.mem_append.mp hym with hpre | hrest
+  · exact absurd (hp y hpre) hye
+  · rcases List.mem_cons.mp hrest with rfl | hpost
+    · exact String.le_refl _
+    · have := (List.pairwise_append.mp hs).2.1
+      exact (List.pairwise_cons.mp this).1 y hpost
+
 /-- A header described by `content` is only checked for presence (finding #22, fixed). -/
 theorem header_by_content_presence_only (canon : String → String) (w : Bool) (hdrs : List (String × String))
     (h : Hdr) (hs : h.schema = none) :
@@ -276,32 +497,135 @@ theorem header_by_content_presence_only (canon : String → String) (w : Bool) (
   unfold checkHeader
   cases hp : present canon hdrs h <;> cases hr : h.required <;> simp [hs]
 
+/-! ### The constants of the skips and of the status-class key are the ones the source spells (table RespConsts) -/
+
+open KinModel.Gen in
+/-- Table obligation: every switch / range shape of ValidateResponse and Responses.Status was read. -/
+theorem respConsts_recognised :
+    respConsts.all (fun r => match r with | .unrecognised _ => false | _ => true) = true := by decide
+
+open KinModel.Gen in
+/-- The status codes the model skips are exactly the cases of the source's `switch status`. -/
+theorem skipStatus_from_source (st : Int) : skipStatus st = true ↔ RespConstRow.skipStatus st ∈ respConsts := by
+  rw [skipStatus_iff]
+  simp only [respConsts, List.mem_cons, RespConstRow.skipStatus.injEq, reduceCtorEq, false_or, or_false,
+    List.not_mem_nil]
+  constructor
+  · rintro (h | h | h | h) <;> simp [h]
+  · rintro (h | h | h | h) <;> simp [h]
+
+open KinModel.Gen in
+/-- The only method the source skips is HEAD. -/
+theorem skipMethod_from_source (m : String) : m = "HEAD" ↔ RespConstRow.skipMethod m ∈ respConsts := by
+  simp [respConsts]
+
+open KinModel.Gen in
+/-- The class key exists exactly inside the source's range condition, … -/
+theorem classRange_from_source (status : Int) :
+    (classKey status).isSome = true ↔ ∃ lo hi, RespConstRow.classRange lo hi ∈ respConsts ∧ lo < status ∧ status < hi := by
+  rw [classKey_defined_iff]
+  simp only [respConsts, List.mem_cons, RespConstRow.classRange.injEq, reduceCtorEq, false_or, or_false,
+    List.not_mem_nil]
+  constructor
+  · intro h; exact ⟨99, 600, ⟨rfl, rfl⟩, by omega, by omega⟩
+  · rintro ⟨lo, hi, ⟨rfl, rfl⟩, h1, h2⟩; omega
+
+open KinModel.Gen in
+/-- … it is the hundreds digit followed by the source's suffix, and always one of the source's five case labels
+(so the `switch st` inside the range branch never filters anything out). -/
+theorem classKey_from_source (status : Int) (k : String) (h : classKey status = some k) :
+    RespConstRow.classKey k ∈ respConsts ∧ RespConstRow.classSuffix "XX" ∈ respConsts ∧
+      k = toString (status / 100) ++ "XX" := by
+  unfold classKey at h
+  split at h
+  · rename_i hr
+    simp only [Option.some.injEq] at h
+    refine ⟨?_, by simp [respConsts], h.symm⟩
+    have hd : status / 100 = 1 ∨ status / 100 = 2 ∨ status / 100 = 3 ∨ status / 100 = 4 ∨ status / 100 = 5 := by omega
+    subst h
+    rcases hd with hd | hd | hd | hd | hd <;> rw [hd] <;> decide
+  · simp at h
+
+/-! ### decodeBody: the decoder registered for the media type -/
+
+/-- A body whose media type (the Content-Type before its first ';') has no registered decoder fails to decode,
+also when a wildcard entry of the content map declares it. -/
+theorem unregistered_media_type_rejected (reg : List (String × String)) (o : Opts) (i : Input) (r : Resp)
+    (mt : MediaType) (s : Sch) (he : o.excludeBody = false) (hc : r.content ≠ [])
+    (hg : contentGet r.content (ctOf i) = some mt) (hs : mt.schema = some s) (hr : i.readFails = false)
+    (hu : lookup (parseMediaType (ctOf i)) reg = none) :
+    checkBody reg o i r = ⟨some .bodyDecode, some i.body⟩ := by
+  have : r.content.isEmpty = false := by cases h : r.content <;> simp_all
+  simp [checkBody, he, this, hg, hs, hr, decodeBody, hu]
+
+/-- Under a text decoder (plain, file) the value checked is the body text itself, whatever `bodyDec` says. -/
+theorem text_body_is_its_text (reg : List (String × String)) (i : Input) (d : String)
+    (hl : lookup (parseMediaType (ctOf i)) reg = some d) (ht : textDecoder d = true) :
+    decodeBody reg i = .val (.str i.body) := by
+  simp [decodeBody, hl, ht]
+
+/-- Table obligation: every registration statement of the package was read. -/
+theorem bodyDecoders_recognised :
+    KinModel.Gen.bodyDecoders.all (fun r => match r with | .unrecognised _ => false | _ => true) = true := by decide
+
+/-- Table obligation: no media type is registered twice, so the order of the rows is immaterial. -/
+theorem genReg_keys_distinct : (genReg.map (·.1)).Nodup := by decide
+
+/-- Table obligation: which registered media types get a text decoder, and that JSON has its decoder. -/
+theorem genReg_text_decoders :
+    (genReg.filter (fun kv => textDecoder kv.2)).map (·.1) = ["text/plain", "application/octet-stream"] ∧
+    lookup "application/json" genReg = some "JSONBodyDecoder" ∧
+    lookup "application/problem+json" genReg = some "JSONBodyDecoder" ∧
+    lookup "application/xml" genReg = none := by decide
+
 /-! ### Witnesses of the exclusion classes (model ≠ spec on a concrete input inside the class) -/
 
-def strHdr (s : Sch) (d : Dec) : Hdr := { name := "X-A", required := false, schema := some s, dec := d }
+def strHdr (s : Sch) : Hdr := { name := "X-A", required := false, schema := some s, explode := false }
 def inp (resps : List (String × Resp)) (hdrs : List (String × String)) (d : Dec) : Input :=
   { method := "GET", status := 200, responses := resps, hdrs := hdrs, body := "", readFails := false, bodyDec := d }
 
 /-- `X-A: abc` against the header schema `{}`: rejected ("Value is not nullable") although every value satisfies `{}`. -/
 theorem witness_HdrDecodedNil :
-    let i := inp [("200", ⟨[strHdr (.mk {} .nil .none .none) .nil], []⟩)] [("X-A", "abc")] .err
-    HdrDecodedNil id i = true ∧ (validateResponse id {} i).err = some (.hdrSchema "X-A") ∧ acceptB id {} i = true := by
+    let i := inp [("200", ⟨[strHdr (.mk {} .nil .none .none)], []⟩)] [("X-A", "abc")] .err
+    HdrDecodedNil id i = true ∧ (validateResponse id genReg {} i).err = some (.hdrSchema "X-A") ∧ acceptB id genReg {} i = true := by
   decide
 
 def pwHdrSchema : Sch :=
   .mk { ty := .object } (.cons "pw" (.mk { ty := .string, writeOnly := true } .nil .none .none) .nil) .none .none
 
-/-- `X-A: pw,x` against an object header schema whose property `pw` is write-only: accepted. -/
-theorem witness_HdrNotAsResponse :
-    let i := inp [("200", ⟨[strHdr pwHdrSchema (.val (.obj (.cons "pw" (.str "x") .nil)))], []⟩)] [("X-A", "pw,x")] .err
-    HdrNotAsResponse id i = true ∧ (validateResponse id {} i).err = none ∧ acceptB id {} i = false := by
+/-- Regression (F-C08-2, fixed in 35101a0): `X-A: pw,x` against an object header schema whose property `pw` is
+write-only is rejected by the model and by the spec, lies in no exclusion class, and is accepted again when the
+write-only checks are switched off. -/
+theorem header_writeOnly_rejected :
+    let i := inp [("200", ⟨[strHdr pwHdrSchema], []⟩)] [("X-A", "pw,x")] .err
+    Excluded id {} i = false ∧ (validateResponse id genReg {} i).err = some (.hdrSchema "X-A") ∧ acceptB id genReg {} i = false ∧
+      (validateResponse id genReg { woOff := true } i).err = none ∧ acceptB id genReg { woOff := true } i = true := by
+  decide
+
+def pwReqHdrSchema : Sch :=
+  .mk { ty := .object, required := ["pw"] }
+    (.cons "n" (.mk { ty := .string } .nil .none .none)
+      (.cons "pw" (.mk { ty := .string, writeOnly := true } .nil .none .none) .nil)) .none .none
+
+/-- Regression (F-C08-2, second half): a header object that (rightly) omits its required write-only property is
+accepted by the model and by the spec. -/
+theorem header_required_writeOnly_absent_accepted :
+    let i := inp [("200", ⟨[strHdr pwReqHdrSchema], []⟩)] [("X-A", "n,x")] .err
+    Excluded id {} i = false ∧ (validateResponse id genReg {} i).err = none ∧ acceptB id genReg {} i = true := by
+  decide
+
+/-- `X-A: 1,2` against the header schema `{type: array}` (no `items`): nil dereference. -/
+theorem witness_HdrArrayNoItems :
+    let i := inp [("200", ⟨[strHdr (arrHdrSchema .none)], []⟩)] [("X-A", "1,2")] .err
+    HdrArrayNoItems id i = true ∧ (validateResponse id genReg {} i).err = some (.hdrPanic "X-A") ∧
+      acceptB id genReg {} i = false := by
   decide
 
 /-- Empty responses map, IncludeResponseStatus: accepted although no entry defines the status. -/
 theorem witness_EmptyMapStrict :
     let i := inp [] [] .err
-    EmptyMapStrict { strict := true } i = true ∧ (validateResponse id { strict := true } i).err = none ∧
-      acceptB id { strict := true } i = false := by
+    EmptyMapStrict { strict := true } i = true ∧ (validateResponse id genReg { strict := true } i).err = none ∧
+      acceptB id genReg { strict := true } i = false := by
   decide
 
 /-- Regression (F-C08-4, fixed): body `{"pw": null}` against a schema whose nullable property `pw` is write-only
@@ -309,14 +633,14 @@ is rejected by the model and by the spec, and lies in no exclusion class. -/
 theorem writeOnly_null_rejected_in_body :
     let i := inp [("200", ⟨[], [("application/json", ⟨some (pwSchema true)⟩)]⟩)] [("Content-Type", "application/json")]
               (.val (.obj (.cons "pw" .null .nil)))
-    Excluded id {} i = false ∧ (validateResponse id {} i).err = some .bodySchema ∧ acceptB id {} i = false := by
+    Excluded id {} i = false ∧ (validateResponse id genReg {} i).err = some .bodySchema ∧ acceptB id genReg {} i = false := by
   decide
 
 /-! ### Non-vacuity: inputs outside every exclusion class on which both directions are exercised -/
 
 def exResp : Resp :=
-  ⟨[{ name := "X-B", required := true, schema := some (.mk { ty := .integer, maxI := some 9 } .nil .none .none), dec := .val (.num 5) },
-    { name := "X-A", required := false, schema := some (.mk { ty := .string } .nil .none .none), dec := .nil }],
+  ⟨[{ name := "X-B", required := true, schema := some (.mk { ty := .integer, maxI := some 9 } .nil .none .none) },
+    { name := "X-A", required := false, schema := some (.mk { ty := .string } .nil .none .none) }],
    [("application/json", ⟨some (pwSchema false)⟩)]⟩
 
 def exIn (status : Int) (body : J) : Input :=
@@ -325,14 +649,14 @@ def exIn (status : Int) (body : J) : Input :=
     bodyDec := .val body }
 
 example : Excluded id {} (exIn 201 (.obj (.cons "id" (.num 1) .nil))) = false := by decide
-example : (validateResponse id {} (exIn 201 (.obj (.cons "id" (.num 1) .nil)))).err = none := by decide
-example : Accept id {} (exIn 201 (.obj (.cons "id" (.num 1) .nil))) :=
-  (accept_iff_partial id {} _ (by decide)).mp (by decide)
+example : (validateResponse id genReg {} (exIn 201 (.obj (.cons "id" (.num 1) .nil)))).err = none := by decide
+example : Accept id genReg {} (exIn 201 (.obj (.cons "id" (.num 1) .nil))) :=
+  (accept_iff_partial id genReg {} _ (by decide)).mp (by decide)
 example : Excluded id {} (exIn 201 (.obj (.cons "pw" (.str "x") .nil))) = false := by decide
-example : (validateResponse id {} (exIn 201 (.obj (.cons "pw" (.str "x") .nil)))).err = some .bodySchema := by decide
-example : ¬ Accept id {} (exIn 201 (.obj (.cons "pw" (.str "x") .nil))) :=
-  fun h => by have := (accept_iff_partial id {} _ (by decide)).mpr h; revert this; decide
-example : (validateResponse id {} (exIn 404 .null)).err = none := by decide
+example : (validateResponse id genReg {} (exIn 201 (.obj (.cons "pw" (.str "x") .nil)))).err = some .bodySchema := by decide
+example : ¬ Accept id genReg {} (exIn 201 (.obj (.cons "pw" (.str "x") .nil))) :=
+  fun h => by have := (accept_iff_partial id genReg {} _ (by decide)).mpr h; revert this; decide
+example : (validateResponse id genReg {} (exIn 404 .null)).err = none := by decide
 example : classKey 201 = some "2XX" ∧ classKey 99 = none ∧ classKey 600 = none ∧ classKey 599 = some "5XX" := by decide
 
 end KinModel.Response
